@@ -313,6 +313,7 @@ def run_case(case_id, tier="quick", seed=0, timeout_scale=1.0):
         return summary
     summary["paths"] = len(paths)
     summary["stats"] = dict(ex.stats)
+    nfail = 0
     S.set_ring(ring)
     for p in paths:
         if p.outcome[0] == "infeasible":
@@ -331,10 +332,19 @@ def run_case(case_id, tier="quick", seed=0, timeout_scale=1.0):
             summary["gaps"].append(dict(path=p.id, what=p.outcome[1], pc=[repr(x)[:200] for x in p.pc[-6:]]))
         for ob in obs:
             ring.meta = ob.info.get("meta") or {}
+            if nfail >= 8:
+                v = prove.Verdict("unknown", "skipped", 0.0, detail="not attempted: 8 obligations of this case already failed")
+                summary["obligations"].append(dict(name=ob.name, prop=ob.info.get("prop") or case.prop,
+                                                   props=[ob.info["prop"]] if ob.info.get("prop") else (list(case.props) if case.share else [case.prop]),
+                                                   path=p.id, status="unknown", backend="skipped", seconds=0.0, detail=v.detail, model=None, goal=repr(ob.goal)[:200],
+                                                   npc=len(ob.hyps), pc=[], exception=ob.info.get("exception"), excuse=ob.info.get("excuse"), structure=None, notes=[]))
+                continue
             try:
                 v = prove.prove(ring, ob, timeout_s=case.timeout * timeout_scale, seed=seed)
             except Exception:
                 v = prove.Verdict("unknown", "crash", 0.0, detail=traceback.format_exc()[-800:])
+            if v.status != "proved":
+                nfail += 1
             rec = dict(
                 name=ob.name,
                 prop=ob.info.get("prop") or case.prop,
